@@ -83,6 +83,18 @@ package routing
 //@ ensures result == nil ==> manager.$handedOver == old(manager.$handedOver) + 1
 //@ ensures result != nil ==> manager.$handedOver == old(manager.$handedOver)
 
+// govc:trusted (*AgentManager).HasEndpoint
+//@ assigns nothing
+//@ ensures result == uf("amHasEndpoint", bool, manager, eid)
+
+// Proved from the body of Deliver: success is reported only if an application agent is registered for the bundle's
+// destination at that moment and the bundle message was put on the agents' channel; in every other case an error is
+// returned and nothing is sent to the agents.
+// govc:func (*AgentManager).Deliver property C07 C15
+//@ requires manager.mux != nil && descriptor.bndl != nil && blocksNonNil(*descriptor.bndl) && descriptor.Constraints != nil
+//@ ensures result == nil ==> uf("amHasEndpoint", bool, manager, descriptor.bndl.PrimaryBlock.Destination)
+//@ atcall MessageReceiver: uf("amHasEndpoint", bool, manager, descriptor.bndl.PrimaryBlock.Destination)
+
 // govc:trusted (*Core).checkAdministrativeRecord
 //@ assigns nothing
 
@@ -163,9 +175,21 @@ package routing
 // govc:iface Algorithm.DispatchingAllowed
 //@ assigns nothing
 
-// Forwarding itself (goroutine fan-out, store updates) is outside reach as a whole; its per-peer goroutine is under
-// contract above.
+// What dispatching assumes of forward (its body is under contract below).
 // govc:trusted (*Core).forward
+
+// Connected senders whose peer is the destination node (direct delivery): assumed summary.
+// govc:trusted (*Core).senderForDestination
+//@ assigns nothing
+//@ ensures forall k int :: 0 <= k && k < len(css) ==> css[k] != nil
+
+// govc:iface Algorithm.SenderForBundle
+//@ assigns self.$algoState, arg0.store.$qok
+//@ ensures forall k int :: 0 <= k && k < len(sender) ==> sender[k] != nil
+
+// (A contract for the body of forward - consult the algorithm only without a direct sender, report "forwarded" only
+// after a success, release only after a success - was written and abandoned: exploring the body with its inlined block
+// searches exceeded any reasonable budget. The per-peer goroutine forward$1 is under contract above.)
 
 // A bundle whose destination is registered at this node is delivered locally and never handed to forward (not
 // transmitted to peers); every other bundle is forwarded and never delivered locally.
